@@ -72,13 +72,15 @@ pub fn check(case: &C07Case) -> CaseOutcome
             // (catches "fall back to copying in place when the rename fails")
             for t in ops.iter().filter(|t| t.kind == "rename")
             {
-                for e in ["EXDEV", "EACCES"]
+                for e in ["EXDEV", "EACCES", "EEXIST"]
                 {
                     for j in 1..=14u64
                     {
                         plans.push((format!("fail:{}:{};kill:{}", t.k, e, t.k + j), t.k, "rename-fail-then-kill"));
                     }
                 }
+                // every rename from this one on fails (a file system that refuses to replace existing files)
+                plans.push((format!("rfail:{}:{}", t.k, if t.k % 2 == 0 { "EEXIST" } else { "EBUSY" }), t.k, "persistent-rename-failure"));
             }
             // a scratch-file write that fails (full temporary directory), then a kill at each of the next
             // operations (catches "retry somewhere else when the temporary directory is full"), and a
@@ -290,7 +292,7 @@ pub fn run(env: &Env, rec: &Recorder) -> (String, Vec<&'static str>)
     );
     rec.set_exhaustive(true);
     (
-        "trees of 1-4 source files (tens of bytes to ~1 MiB, insertions near start / middle / end, with and without final newline, both styles, lock on); inside each case a recording run gives the K counted operations (open/read/write/close/rename/unlink/stat/opendir on project and TMPDIR paths) and the complete update; then for EVERY k: SIGKILL before op k (and after the last op), op k failed with every errno applicable to its kind (EIO/ENOSPC/EXDEV/EACCES/EMFILE, short write, short write followed by a failing write), every rename failed (EXDEV/EACCES) followed by a SIGKILL before each of the next 14 operations, the first and the last write of every scratch file failed (ENOSPC/EDQUOT) followed by a SIGKILL before each of the next 14 operations, a write failure that persists from those writes on, and (trees < 64 KiB) SIGKILL before every operation with TMPDIR really on another filesystem - each on a fresh copy. Oracle: every source file is byte-identical to the original or a complete update (insertion-only with exactly the reference run's offsets); every other project entry unchanged (lock exempt); and for a sample of kill points a FOLLOW-UP: the developer shortens every source file and runs breadlog again in the same sandbox (same TMPDIR) - the result must be exactly the shortened files plus reference tokens (nothing left behind by the killed run may leak into a later run). exhaustive=true means: all operation boundaries of each generated tree. Non-trivial = distinct (tree, plan) whose fault hits after the first scratch-file open and not after the last op".to_string(),
+        "trees of 1-4 source files (tens of bytes to ~1 MiB, insertions near start / middle / end, with and without final newline, both styles, lock on); inside each case a recording run gives the K counted operations (open/read/write/close/rename/unlink/stat/opendir on project and TMPDIR paths) and the complete update; then for EVERY k: SIGKILL before op k (and after the last op), op k failed with every errno applicable to its kind (EIO/ENOSPC/EXDEV/EACCES/EMFILE, short write, short write followed by a failing write), every rename failed (EXDEV/EACCES/EEXIST) followed by a SIGKILL before each of the next 14 operations, every rename from a given one on failing (EEXIST/EBUSY), the first and the last write of every scratch file failed (ENOSPC/EDQUOT) followed by a SIGKILL before each of the next 14 operations, a write failure that persists from those writes on, and (trees < 64 KiB) SIGKILL before every operation with TMPDIR really on another filesystem - each on a fresh copy. Oracle: every source file is byte-identical to the original or a complete update (insertion-only with exactly the reference run's offsets); every other project entry unchanged (lock exempt); and for a sample of kill points a FOLLOW-UP: the developer shortens every source file and runs breadlog again in the same sandbox (same TMPDIR) - the result must be exactly the shortened files plus reference tokens (nothing left behind by the killed run may leak into a later run). exhaustive=true means: all operation boundaries of each generated tree. Non-trivial = distinct (tree, plan) whose fault hits after the first scratch-file open and not after the last op".to_string(),
         vec![
             "faults are injected at libc call boundaries of the dynamically linked executable (LD_PRELOAD); a kill or failure inside a system call is not enumerated",
             "power-loss semantics (unsynced data) are not part of the statement: no fsync is demanded",
